@@ -14,17 +14,21 @@ def build_loader(ctx, m):
     """the file-reader harness: constructor as compiled, library surface stubbed by generated definitions"""
     if ctx.only and not re.search(ctx.only, 'h_load'): return [], []
     names = [k[1:] if k.startswith('@') else k for k in m.funcs]
-    def one(rx):
-        got = [k for k in names if re.search(rx, k)]
-        if len(got) != 1: raise Broken('library surface of the PolyglotBook constructor changed: %s -> %s' % (rx, got))
-        return got[0]
-    MAP = r'^_ZNSt3mapImSt6vectorISt4pairIjiESaIS2_EESt4lessImESaIS1_IKmS4_EEE'
+    REQUIRED = ('index', 'push_back', 'read', 'if_ctor', 'bool')
+    MAP = r'^_ZNSt3mapImSt6vectorISt4pairIjiESaIS2_EESt4lessImESaIS1_IKmS4_EEE'; MAPC = MAP.replace('^_ZNSt3map', '^_ZNKSt3map')
     VECT = r'^_ZNSt6vectorISt4pairIjiESaIS1_EE'
-    S = {'map_ctor': one(MAP + 'C2Ev$'), 'map_dtor': one(MAP + 'D2Ev$'), 'find': one(MAP + '4findERS7_$'), 'end': one(MAP + '3endEv$'), 'index': one(MAP + 'ixERS7_$'),
-         'iter_eq': one(r'^_ZSteqRKSt17_Rb_tree_iteratorISt4pairIKmSt6vector'), 'vec_ctor': one(VECT + 'C2Ev$'), 'vec_dtor': one(VECT + 'D2Ev$'), 'vec_assign': one(VECT + 'aSEOS3_$'),
-         'push_back': one(VECT + '9push_backEOS1_$'), 'mt': one(r'^_ZNSt23mersenne_twister_engine.*C2Em$'), 'dist': one(r'^_ZNSt24uniform_int_distributionImEC2Ev$'),
-         'fpos': one(r'^_ZNSt4fposI11__mbstate_tEC2El$'), 'if_ctor': one(r'^_ZNSt14basic_ifstreamIcSt11char_traitsIcEEC1ERKNSt7__cxx1112basic_string'), 'if_dtor': one(r'^_ZNSt14basic_ifstreamIcSt11char_traitsIcEED1Ev$'),
-         'bool': one(r'^_ZNKSt9basic_iosIcSt11char_traitsIcEEcvbEv$'), 'read': one(r'^_ZNSi4readEPcl$'), 'seekg': one(r'^_ZNSi5seekgESt4fposI11__mbstate_tE$')}
+    RX = {'map_ctor': MAP + 'C2Ev$', 'map_dtor': MAP + 'D2Ev$', 'find': MAP + '4findERS7_$', 'end': MAP + '3endEv$', 'index': MAP + 'ixERS7_$',
+          'iter_eq': r'^_ZSteqRKSt17_Rb_tree_iteratorISt4pairIKmSt6vector', 'vec_ctor': VECT + 'C2Ev$', 'vec_dtor': VECT + 'D2Ev$', 'vec_assign': VECT + 'aSEOS3_$',
+          'push_back': VECT + '9push_backEOS1_$', 'mt': r'^_ZNSt23mersenne_twister_engine.*C2Em$', 'dist': r'^_ZNSt24uniform_int_distributionImEC2Ev$',
+          'fpos': r'^_ZNSt4fposI11__mbstate_tEC2El$', 'if_ctor': r'^_ZNSt14basic_ifstreamIcSt11char_traitsIcEEC1ERKNSt7__cxx1112basic_string', 'if_dtor': r'^_ZNSt14basic_ifstreamIcSt11char_traitsIcEED1Ev$',
+          'bool': r'^_ZNKSt9basic_iosIcSt11char_traitsIcEEcvbEv$', 'read': r'^_ZNSi4readEPcl$', 'seekg': r'^_ZNSi5seekgESt4fposI11__mbstate_tE$',
+          'map_empty': MAPC + '5emptyEv$', 'map_size': MAPC + '4sizeEv$', 'map_count': MAPC + '5countERS7_$'}
+    S = {}
+    for k, rx in RX.items():
+        got = [f for f in names if re.search(rx, f)]
+        if len(got) == 1: S[k] = got[0]
+        elif k in REQUIRED or len(got) > 1: raise Broken('library surface of the PolyglotBook constructor changed: %s -> %s' % (rx, got))
+        # members the current code does not use are simply absent from the module: nothing to model
     c, h, info = ctx.translate(m, [CTOR], stubs=list(S.values()), out='ld')
     header = open(h).read()
     if CTOR not in header: raise Broken('PolyglotBook(path, seed) constructor not found')
@@ -37,8 +41,9 @@ def build_loader(ctx, m):
          'iter_eq': 'return v_0->f0 == v_1->f0;',
          'index': 'cur_key = *v_1; if (seen_idx(cur_key) == NOUT) { for (int i = 0; i < NOUT; i++) if (i == n_seen) SEEN[i] = cur_key; n_seen++; } return &VEC;',
          'vec_assign': 'for (int i = 0; i < NOUT; i++) if (i < n_out && OUT[i].key == cur_key) dropped = 1; return v_0;',
+         'map_empty': 'return n_seen == 0;', 'map_size': 'return (uint64_t)n_seen;', 'map_count': 'return seen_idx(*v_1) != NOUT;',
          'push_back': 'for (int i = 0; i < NOUT; i++) if (i == n_out) { OUT[i].key = cur_key; OUT[i].move = v_1->f0; OUT[i].weight = (int32_t)v_1->f1; } n_out++;'}
-    glue = ['#define LOADER %s' % CTOR] + [proto_stub(header, S[k], B[k]) for k in B]
+    glue = ['#define LOADER %s' % CTOR] + [proto_stub(header, S[k], B[k]) for k in B if k in S and (k in REQUIRED or re.search(r'\b%s\(' % re.escape(S[k]), header))]   # members the constructor does not call have no prototype in the translation
     open(ctx.path('c19_load_stubs.h'), 'w').write('\n'.join(glue) + '\n')
     open(ctx.path('eng.h'), 'w').write('#include "ld.h"\n')
     hp = os.path.join(VERIF, 'harness', 'c19_load.c')
